@@ -61,13 +61,38 @@ def b58check_decode(s):
     pstr = ps.parseable_str(st)
     t4a, v4a = _call(ps.parse_b58_double_sha256, pstr)       # cached object, asked twice
     t4, v4 = _call(ps.parse_b58_double_sha256, pstr)
+    # one text object that the OTHER Base58 readers of the library looked at first (the plain decoder and the
+    # Groestlcoin family's checksummed reader, whatever it answers or raises here): the double-SHA256 verdict
+    # is a function of the characters, not of who asked before
+    shared = ps.parseable_str(st)
+    _call(ps.parse_b58, shared)
+    for f in _other_checksummed_readers():
+        _call(f, shared)
+    t5, v5 = _call(ps.parse_b58_double_sha256, shared)
     return {
         "a2b": {"tag": t1, "p": list(v1) if t1 == "ok" else None},
         "is_valid": {"tag": t2, "v": v2 if t2 == "ok" else None},
         "parse": {"tag": t3, "p": (None if v3 is None else list(v3)) if t3 == "ok" else None},
         "parse_cached": {"tag": t4, "p": (None if v4 is None else list(v4)) if t4 == "ok" else None,
-                         "stable": (t4a, v4a) == (t4, v4)},
+                         "stable": (t4a, v4a) == (t4, v4) and (t5, v5) == (t3, v3)},
     }
+
+
+_OTHER = None
+
+
+def _other_checksummed_readers():
+    global _OTHER
+    if _OTHER is None:
+        _OTHER = []
+        try:
+            from pycoin.coins.groestlcoin import parse as gp
+            f = getattr(gp, "parse_b58_groestl", None)
+            if callable(f):
+                _OTHER.append(f)
+        except Exception:  # noqa: BLE001  (module moved / not importable: nothing else shares the object then)
+            pass
+    return _OTHER
 
 
 # ---------------------------------------------------------------- Bech32 / segwit addresses
